@@ -29,13 +29,17 @@ def _custom_object_builder(cls, type, properties, version, base_class):
         _properties = prop_dict
 
         def __init__(self, **kwargs):
+            ext = getattr(cls, 'with_extension', None)
+            if ext and version != '2.0':
+                # Supply the extension as an ordinary argument, so that
+                # 'extensions' takes its regular place among the properties
+                # (adding it afterwards put it last, and the object then
+                # serialized differently from its own re-parsed form).
+                extensions = dict(kwargs.get('extensions') or {})
+                extensions[ext] = class_for_type(ext, version, "extensions")()
+                kwargs = dict(kwargs, extensions=extensions)
             base_class.__init__(self, **kwargs)
             _cls_init(cls, self, kwargs)
-            ext = getattr(self, 'with_extension', None)
-            if ext and version != '2.0':
-                if 'extensions' not in self._inner:
-                    self._inner['extensions'] = {}
-                self._inner['extensions'][ext] = class_for_type(ext, version, "extensions")()
 
     _CustomObject.__name__ = cls.__name__
 
@@ -75,13 +79,17 @@ def _custom_observable_builder(cls, type, properties, version, base_class, id_co
             _id_contributing_properties = id_contrib_props
 
         def __init__(self, **kwargs):
+            ext = getattr(cls, 'with_extension', None)
+            if ext and version != '2.0':
+                # Supply the extension as an ordinary argument, so that
+                # 'extensions' takes its regular place among the properties
+                # (adding it afterwards put it last, and the object then
+                # serialized differently from its own re-parsed form).
+                extensions = dict(kwargs.get('extensions') or {})
+                extensions[ext] = class_for_type(ext, version, "extensions")()
+                kwargs = dict(kwargs, extensions=extensions)
             base_class.__init__(self, **kwargs)
             _cls_init(cls, self, kwargs)
-            ext = getattr(self, 'with_extension', None)
-            if ext and version != '2.0':
-                if 'extensions' not in self._inner:
-                    self._inner['extensions'] = {}
-                self._inner['extensions'][ext] = class_for_type(ext, version, "extensions")()
 
     _CustomObservable.__name__ = cls.__name__
 
